@@ -1,9 +1,611 @@
-//! group `zone` — stub (not built yet).
-#![allow(unused)]
+//! group `zone` — C06 / C20 / C21: src/db/hash_map_tree/{zone,node}.rs, src/db/rrset.rs,
+//! src/db/zone/{mod,validation}.rs through the public `HashMapTreeZone` / `Zone` API.
+//!
+//! One case = one session (see lean/QV/Driver/Zone.lean for the line format):
+//!     zone <apex> <class> <n|w> <step>;<step>;…
+#![allow(clippy::too_many_arguments)]
 use crate::common::*;
+use quandary::class::Class;
+use quandary::db::zone::{
+    GluePolicy, IteratedRrset, LookupAddrsResult, LookupAllResult, LookupOptions, LookupResult,
+    SingleRrset, ValidationIssue,
+};
+use quandary::db::{HashMapTreeZone, Zone};
+use quandary::name::Name;
+use quandary::rr::{Rdata, RdataSet, Ttl, Type};
+use std::collections::BTreeSet;
 
-pub fn run(_op: &str, _a: &[&str]) -> Option<String> {
-    None
+// ------------------------------------------------------------------------------------------
+// canonical printing (must agree with lean/QV/Driver/Zone.lean)
+// ------------------------------------------------------------------------------------------
+
+fn show_name(n: &Name) -> String {
+    let w: Vec<u8> = n.wire_repr().iter().map(|b| b.to_ascii_lowercase()).collect();
+    hex(&w)
 }
 
-pub fn gen(_rng: &mut Rng, _thorough: bool, _em: &mut Emitter) {}
+fn show_rds(rds: &RdataSet) -> String {
+    let mut v: Vec<String> = rds.iter().map(|r| hex(r.octets())).collect();
+    v.sort();
+    v.join(",")
+}
+
+fn show_rrset(s: &SingleRrset) -> String {
+    format!("{}:{}", u32::from(s.ttl), show_rds(&s.rdatas))
+}
+
+fn show_typed(s: &IteratedRrset) -> String {
+    format!("{}:{}:{}", u16::from(s.rr_type), u32::from(s.ttl), show_rds(&s.rdatas))
+}
+
+fn show_typed_list<'a, I: Iterator<Item = IteratedRrset<'a>>>(it: I) -> String {
+    let mut v: Vec<String> = it.map(|s| show_typed(&s)).collect();
+    v.sort();
+    format!("[{}]", v.join("|"))
+}
+
+fn show_sos(s: &Option<std::borrow::Cow<Name>>) -> String {
+    match s {
+        Some(n) => format!("sos={}", show_name(n)),
+        None => "sos=-".to_string(),
+    }
+}
+
+fn show_opt_rrset(s: &Option<SingleRrset>) -> String {
+    match s {
+        Some(s) => show_rrset(s),
+        None => "-".to_string(),
+    }
+}
+
+fn show_issue(i: &ValidationIssue) -> String {
+    let sev = if i.is_error() { "E" } else { "W" };
+    match i {
+        ValidationIssue::MissingApexSoa => format!("{sev}:MissingApexSoa"),
+        ValidationIssue::TooManyApexSoas => format!("{sev}:TooManyApexSoas"),
+        ValidationIssue::MissingApexNs => format!("{sev}:MissingApexNs"),
+        ValidationIssue::MissingNsAddress(n) => format!("{sev}:MissingNsAddress:{}", show_name(n)),
+        ValidationIssue::MissingMxAddress(n) => format!("{sev}:MissingMxAddress:{}", show_name(n)),
+        ValidationIssue::MissingGlue(n) => format!("{sev}:MissingGlue:{}", show_name(n)),
+        ValidationIssue::DuplicateCname(n) => format!("{sev}:DuplicateCname:{}", show_name(n)),
+        ValidationIssue::OtherRecordsAtCname(n) => format!("{sev}:OtherRecordsAtCname:{}", show_name(n)),
+        ValidationIssue::NsAtWildcard(n) => format!("{sev}:NsAtWildcard:{}", show_name(n)),
+    }
+}
+
+fn parse_name(h: &str) -> Option<Box<Name>> {
+    Name::try_from_uncompressed_all(&unhex(h)?).ok()
+}
+
+fn parse_opts(s: &str) -> Option<LookupOptions> {
+    let b = s.as_bytes();
+    if b.len() != 2 || !b.iter().all(|c| *c == b'0' || *c == b'1') {
+        return None;
+    }
+    Some(LookupOptions { unchecked: b[0] == b'1', search_below_cuts: b[1] == b'1' })
+}
+
+fn step(zone: &mut HashMapTreeZone, st: &str) -> Option<String> {
+    let f: Vec<&str> = st.split(',').collect();
+    Some(match f.as_slice() {
+        ["a", o, t, c, ttl, rd] => {
+            let owner = parse_name(o)?;
+            let t: u16 = t.parse().ok()?;
+            let c: u16 = c.parse().ok()?;
+            let ttl: u32 = ttl.parse().ok()?;
+            let rd = unhex(rd)?;
+            let rdata: &Rdata = rd.as_slice().try_into().ok()?;
+            guarded(|| match zone.add(&owner, Type::from(t), Class::from(c), Ttl::from(ttl), rdata) {
+                Ok(()) => "ok".to_string(),
+                Err(e) => format!("e:{:?}", e),
+            })
+        }
+        ["l", n, t, o] => {
+            let name = parse_name(n)?;
+            let t: u16 = t.parse().ok()?;
+            let o = parse_opts(o)?;
+            let zone = &*zone;
+            guarded(|| match zone.lookup(&name, Type::from(t), o) {
+                LookupResult::Found(f) => format!("F {} {}", show_rrset(&f.data), show_sos(&f.source_of_synthesis)),
+                LookupResult::Cname(c) => format!("C {} {}", show_rrset(&c.rrset), show_sos(&c.source_of_synthesis)),
+                LookupResult::Referral(r) => format!("R {} {}", show_name(&r.child_zone), show_rrset(&r.ns_rrset)),
+                LookupResult::NoRecords(n) => format!("N {}", show_sos(&n.source_of_synthesis)),
+                LookupResult::NxDomain => "X".to_string(),
+                LookupResult::WrongZone => "W".to_string(),
+            })
+        }
+        ["d", n, o] => {
+            let name = parse_name(n)?;
+            let o = parse_opts(o)?;
+            let zone = &*zone;
+            guarded(|| match zone.lookup_addrs(&name, o) {
+                LookupAddrsResult::Found(f) => format!(
+                    "F a={} aaaa={} {}",
+                    show_opt_rrset(&f.data.a_rrset),
+                    show_opt_rrset(&f.data.aaaa_rrset),
+                    show_sos(&f.source_of_synthesis)
+                ),
+                LookupAddrsResult::Cname(c) => format!("C {} {}", show_rrset(&c.rrset), show_sos(&c.source_of_synthesis)),
+                LookupAddrsResult::Referral(r) => format!("R {} {}", show_name(&r.child_zone), show_rrset(&r.ns_rrset)),
+                LookupAddrsResult::NxDomain => "X".to_string(),
+                LookupAddrsResult::WrongZone => "W".to_string(),
+            })
+        }
+        ["x", n, o] => {
+            let name = parse_name(n)?;
+            let o = parse_opts(o)?;
+            let zone = &*zone;
+            guarded(|| match zone.lookup_all(&name, o) {
+                LookupAllResult::Found(f) => {
+                    let sos = show_sos(&f.source_of_synthesis);
+                    format!("F {} {}", show_typed_list(f.data), sos)
+                }
+                LookupAllResult::Referral(r) => format!("R {} {}", show_name(&r.child_zone), show_rrset(&r.ns_rrset)),
+                LookupAllResult::NxDomain => "X".to_string(),
+                LookupAllResult::WrongZone => "W".to_string(),
+            })
+        }
+        ["n"] => {
+            let zone = &*zone;
+            guarded(|| {
+                let mut v: Vec<String> = zone
+                    .iter_by_node()
+                    .map(|(name, rrsets)| format!("{}={}", show_name(name), show_typed_list(rrsets)))
+                    .collect();
+                v.sort();
+                v.join(" ")
+            })
+        }
+        ["r"] => {
+            let zone = &*zone;
+            guarded(|| {
+                let mut v: Vec<String> = zone
+                    .iter_by_rrset()
+                    .map(|(name, rrset)| format!("{}/{}", show_name(name), show_typed(&rrset)))
+                    .collect();
+                v.sort();
+                v.join(" ")
+            })
+        }
+        ["s"] => {
+            let zone = &*zone;
+            guarded(|| format!("S {}", show_opt_rrset(&zone.soa())))
+        }
+        ["t"] => {
+            let zone = &*zone;
+            guarded(|| format!("T {}", show_opt_rrset(&zone.ns())))
+        }
+        ["v"] => {
+            let zone = &*zone;
+            guarded(|| match zone.validate() {
+                Ok(issues) => {
+                    let set: BTreeSet<String> = issues.iter().map(show_issue).collect();
+                    format!("V {}", set.into_iter().collect::<Vec<_>>().join(","))
+                }
+                Err(e) => format!("V!{:?}", e),
+            })
+        }
+        _ => return None,
+    })
+}
+
+pub fn run(op: &str, a: &[&str]) -> Option<String> {
+    match (op, a) {
+        ("zone", [apex, cls, glue, steps]) => {
+            let bad = Some("bad-op".to_string());
+            let Some(apex) = parse_name(apex) else { return bad };
+            let Ok(cls) = cls.parse::<u16>() else { return bad };
+            let glue = match *glue {
+                "n" => GluePolicy::Narrow,
+                "w" => GluePolicy::Wide,
+                _ => return bad,
+            };
+            let mut zone = HashMapTreeZone::new(apex, Class::from(cls), glue);
+            let mut out: Vec<String> = Vec::new();
+            for st in steps.split(';') {
+                match step(&mut zone, st) {
+                    Some(r) => out.push(r),
+                    None => return bad,
+                }
+            }
+            Some(format!("ok {}", out.join(";")))
+        }
+        _ => None,
+    }
+}
+
+// ------------------------------------------------------------------------------------------
+// generators
+// ------------------------------------------------------------------------------------------
+
+type Labels = Vec<Vec<u8>>; // leftmost first, root omitted
+
+fn wire(n: &Labels) -> Vec<u8> {
+    let mut w = Vec::new();
+    for l in n {
+        w.push(l.len() as u8);
+        w.extend_from_slice(l);
+    }
+    w.push(0);
+    w
+}
+
+fn recase(rng: &mut Rng, n: &Labels, p: usize) -> Labels {
+    n.iter()
+        .map(|l| l.iter().map(|b| if rng.chance(p, 100) { b.to_ascii_uppercase() } else { *b }).collect())
+        .collect()
+}
+
+fn cat(prefix: &[&[u8]], base: &Labels) -> Labels {
+    let mut v: Labels = prefix.iter().map(|l| l.to_vec()).collect();
+    v.extend(base.iter().cloned());
+    v
+}
+
+#[derive(Clone)]
+struct Add {
+    owner: Labels,
+    rtype: u16,
+    class: u16,
+    ttl: u32,
+    rdata: Vec<u8>,
+}
+
+impl Add {
+    fn step(&self) -> String {
+        format!("a,{},{},{},{},{}", hex(&wire(&self.owner)), self.rtype, self.class, self.ttl, hex(&self.rdata))
+    }
+}
+
+struct Session {
+    apex: Labels,
+    class: u16,
+    glue: char,
+    adds: Vec<String>,
+}
+
+impl Session {
+    fn emit(&self, em: &mut Emitter, steps: &[String], chunk: usize) {
+        for c in steps.chunks(chunk.max(1)) {
+            let mut all: Vec<&str> = self.adds.iter().map(|s| s.as_str()).collect();
+            all.extend(c.iter().map(|s| s.as_str()));
+            let steps = all.join(";");
+            let apex = hex(&wire(&self.apex));
+            let cls = self.class.to_string();
+            let glue = self.glue.to_string();
+            let case = format!("zone {} {} {} {}", apex, cls, glue, steps);
+            let r = run("zone", &[&apex, &cls, &glue, &steps]).unwrap();
+            em.emit(&case, &r);
+        }
+    }
+}
+
+const T_A: u16 = 1;
+const T_NS: u16 = 2;
+const T_CNAME: u16 = 5;
+const T_SOA: u16 = 6;
+const T_MX: u16 = 15;
+const T_TXT: u16 = 16;
+const T_AAAA: u16 = 28;
+
+fn soa_rdata(rng: &mut Rng, apex: &Labels) -> Vec<u8> {
+    let mut v = wire(&cat(&[b"ns"], apex));
+    v.extend(wire(&cat(&[if rng.chance(1, 2) { b"hm" } else { b"HM" }], apex)));
+    let serial = if rng.chance(3, 4) { 1u8 } else { 2u8 };
+    v.extend_from_slice(&[0, 0, 0, serial, 0, 0, 14, 16, 0, 0, 3, 132, 0, 9, 58, 128, 0, 0, 0, 60]);
+    v
+}
+
+/// all lookup steps for one name
+fn query_steps(name: &Labels, types: &[u16], opts: &[&str], out: &mut Vec<String>) {
+    let h = hex(&wire(name));
+    for o in opts {
+        for t in types {
+            out.push(format!("l,{},{},{}", h, t, o));
+        }
+        out.push(format!("d,{},{}", h, o));
+        out.push(format!("x,{},{}", h, o));
+    }
+}
+
+fn is_below(n: &Labels, apex: &Labels) -> bool {
+    n.len() >= apex.len()
+        && n[n.len() - apex.len()..]
+            .iter()
+            .zip(apex.iter())
+            .all(|(a, b)| a.eq_ignore_ascii_case(b))
+}
+
+fn random_zone(rng: &mut Rng, em: &mut Emitter, thorough: bool) {
+    let alphabet: [&[u8]; 4] = [b"a", b"b", b"*", b"ns"];
+    let apex: Labels = match rng.below(12) {
+        0 => vec![],
+        1 => vec![b"a".to_vec()],
+        2 => vec![b"*".to_vec(), b"z".to_vec()],
+        3 | 4 => vec![b"y".to_vec(), b"z".to_vec()],
+        _ => vec![b"z".to_vec()],
+    };
+    let class: u16 = *rng.pick(&[1u16, 1, 1, 1, 3, 4]);
+    let glue = if rng.chance(1, 2) { 'n' } else { 'w' };
+    let n_recs = if rng.chance(1, 6) { rng.range(20, 40) } else { rng.range(1, 14) };
+    let rand_rel = |rng: &mut Rng, maxd: usize| -> Vec<Vec<u8>> {
+        let d = rng.below(maxd + 1);
+        (0..d).map(|_| rng.pick(&alphabet).to_vec()).collect()
+    };
+    let in_zone = |rng: &mut Rng, maxd: usize| -> Labels {
+        let mut v = rand_rel(rng, maxd);
+        v.extend(apex.iter().cloned());
+        v
+    };
+    let outside = |rng: &mut Rng| -> Labels {
+        match rng.below(4) {
+            0 => vec![b"q".to_vec()],
+            1 => {
+                // shorter than / above the apex
+                if apex.is_empty() { vec![b"q".to_vec()] } else { apex[1..].to_vec() }
+            }
+            2 => {
+                // sibling of the apex
+                let mut v = vec![b"x".to_vec()];
+                if !apex.is_empty() { v.extend(apex[1..].iter().cloned()); }
+                v
+            }
+            _ => {
+                // apex labels as a prefix, not a suffix
+                let mut v = apex.clone();
+                v.push(b"q".to_vec());
+                v
+            }
+        }
+    };
+    let mut adds: Vec<Add> = Vec::new();
+    let mut interesting: Vec<Labels> = vec![apex.clone()];
+    if rng.chance(4, 5) {
+        adds.push(Add { owner: apex.clone(), rtype: T_SOA, class, ttl: 3600, rdata: soa_rdata(rng, &apex) });
+    }
+    if rng.chance(4, 5) {
+        let target = if rng.chance(2, 3) { in_zone(rng, 2) } else { outside(rng) };
+        interesting.push(target.clone());
+        adds.push(Add { owner: apex.clone(), rtype: T_NS, class, ttl: 3600, rdata: wire(&target) });
+    }
+    for _ in 0..n_recs {
+        // duplicates / variations of earlier records
+        if !adds.is_empty() && rng.chance(1, 6) {
+            let mut a = rng.pick(&adds).clone();
+            match rng.below(5) {
+                0 => {}
+                1 => a.owner = recase(rng, &a.owner, 50),
+                2 => a.ttl = *rng.pick(&[7200u32, 0, 3600, 0x8000_0000, 0x7fff_ffff]),
+                3 => a.rdata = a.rdata.iter().map(|b| if rng.chance(1, 2) { b.to_ascii_uppercase() } else { *b }).collect(),
+                _ => a.class = *rng.pick(&[1u16, 3, 4, 255]),
+            }
+            adds.push(a);
+            continue;
+        }
+        let owner = if rng.chance(1, 12) { outside(rng) } else { in_zone(rng, 3) };
+        let owner = if rng.chance(1, 5) { recase(rng, &owner, 50) } else { owner };
+        let rtype = *rng.pick(&[T_A, T_A, T_A, T_NS, T_NS, T_NS, T_CNAME, T_CNAME, T_MX, T_TXT, T_AAAA, T_AAAA, T_SOA, 99]);
+        let name_target = |rng: &mut Rng, interesting: &mut Vec<Labels>| -> Vec<u8> {
+            // inside the delegated child, elsewhere in the zone (sibling), or outside
+            let t = match rng.below(6) {
+                0 => outside(rng),
+                1 | 2 => {
+                    let mut v = rand_rel(rng, 1);
+                    v.extend(owner.iter().cloned());
+                    v
+                }
+                _ => in_zone(rng, 3),
+            };
+            interesting.push(t.clone());
+            let t = if rng.chance(1, 6) { recase(rng, &t, 50) } else { t };
+            let mut w = wire(&t);
+            match rng.below(40) {
+                0 => { w.pop(); }            // truncated name: invalid RDATA
+                1 => w.push(0),              // trailing octet: invalid RDATA
+                _ => {}
+            }
+            w
+        };
+        let rdata: Vec<u8> = match rtype {
+            T_A => {
+                if class == 3 {
+                    let mut w = wire(&in_zone(rng, 1));
+                    w.extend_from_slice(&[0, rng.below(3) as u8]);
+                    w
+                } else {
+                    vec![127, 0, 0, rng.below(3) as u8]
+                }
+            }
+            T_AAAA => {
+                let mut v = vec![0u8; 16];
+                v[15] = rng.below(3) as u8;
+                v
+            }
+            T_NS | T_CNAME => name_target(rng, &mut interesting),
+            T_MX => {
+                if rng.chance(1, 40) {
+                    vec![0]
+                } else {
+                    let mut v = vec![0, *rng.pick(&[10u8, 20])];
+                    v.extend(name_target(rng, &mut interesting));
+                    v
+                }
+            }
+            T_SOA => soa_rdata(rng, &apex),
+            T_TXT => vec![1, *rng.pick(&[b'x', b'X', b'y'])],
+            _ => vec![rng.below(3) as u8],
+        };
+        let ttl = if rng.chance(1, 10) { *rng.pick(&[7200u32, 0, 0x8000_0000, 0xffff_ffff, 0x7fff_ffff]) } else { 3600 };
+        let cls = if rng.chance(1, 25) { *rng.pick(&[1u16, 3, 4, 254]) } else { class };
+        interesting.push(owner.clone());
+        adds.push(Add { owner, rtype, class: cls, ttl, rdata });
+    }
+    // C21 corner cases that random choice rarely produces: a second apex SOA, two CNAMEs at one name
+    if rng.chance(1, 6) {
+        let mut rd = soa_rdata(rng, &apex);
+        let n = rd.len();
+        rd[n - 17] = 7; // another serial
+        adds.push(Add { owner: apex.clone(), rtype: T_SOA, class, ttl: 3600, rdata: rd });
+    }
+    if rng.chance(1, 5) {
+        if let Some(c) = adds.iter().find(|a| a.rtype == T_CNAME).cloned() {
+            let mut d = c.clone();
+            d.rdata = wire(&in_zone(rng, 2));
+            adds.push(d);
+        }
+    }
+    // shuffle lightly so that apex records are not always first
+    for i in (1..adds.len()).rev() {
+        if rng.chance(1, 3) {
+            let j = rng.below(i + 1);
+            adds.swap(i, j);
+        }
+    }
+    let sess = Session { apex: apex.clone(), class, glue, adds: adds.iter().map(|a| a.step()).collect() };
+
+    // names: every interesting name, its ancestors, and everything within two labels below them
+    let mut names: BTreeSet<Labels> = BTreeSet::new();
+    let ext: [&[u8]; 5] = [b"a", b"b", b"*", b"ns", b"x"];
+    for n in &interesting {
+        let n: Labels = n.iter().map(|l| l.to_ascii_lowercase()).collect();
+        for k in 0..=n.len() {
+            let anc: Labels = n[k..].to_vec();
+            names.insert(anc.clone());
+            for e1 in ext {
+                let c1 = cat(&[e1], &anc);
+                if c1.len() <= 6 {
+                    for e2 in ext {
+                        names.insert(cat(&[e2], &c1));
+                    }
+                    names.insert(c1);
+                }
+            }
+        }
+    }
+    let mut names: Vec<Labels> = names.into_iter().collect();
+    // quick tier: a sample
+    let cap = if thorough { 150 } else { 60 };
+    while names.len() > cap {
+        let i = rng.below(names.len());
+        names.swap_remove(i);
+    }
+    let types = [T_A, T_NS, T_CNAME, T_TXT, T_AAAA];
+    let mut steps: Vec<String> = Vec::new();
+    let mut unconstrained: Vec<String> = Vec::new();
+    for n in &names {
+        let n = if rng.chance(1, 8) { recase(rng, n, 50) } else { n.clone() };
+        let ty: Vec<u16> = if thorough { types.to_vec() } else { vec![*rng.pick(&types), *rng.pick(&types)] };
+        if is_below(&n, &apex) {
+            query_steps(&n, &ty, &["00", "01", "10", "11"], &mut steps);
+        } else {
+            query_steps(&n, &ty, &["00", "01"], &mut steps);
+            query_steps(&n, &ty[..1], &["10", "11"], &mut unconstrained);
+        }
+    }
+    let tail: Vec<String> = ["n", "r", "s", "t", "v"].iter().map(|s| s.to_string()).collect();
+    sess.emit(em, &tail, 8);
+    // the effect of every prefix of the add sequence on iteration (C20: rejected adds change nothing)
+    if rng.chance(1, 3) {
+        for k in 0..adds.len().min(12) {
+            let s2 = Session { apex: apex.clone(), class, glue, adds: sess.adds[..k].to_vec() };
+            s2.emit(em, &["n".to_string(), "r".to_string(), "v".to_string()], 8);
+        }
+    }
+    sess.emit(em, &steps, 64);
+    if !unconstrained.is_empty() {
+        sess.emit(em, &unconstrained, 64);
+    }
+}
+
+/// EXHAUSTIVE: every set of at most `k` records out of a 24-record universe over the labels
+/// {a, b, *} below the apex `z.` (6 owners × {A, NS into the zone, NS out of the zone, CNAME});
+/// every name of depth ≤ 2 over {a, b, *, x} and every child of a universe owner, queried with
+/// both `search_below_cuts` values (two types, lookup_addrs, lookup_all); plus iteration,
+/// soa/ns and validation.
+fn exhaustive(em: &mut Emitter, k: usize, glue: char, class: u16) {
+    let apex: Labels = vec![b"z".to_vec()];
+    let owners: Vec<Labels> = vec![
+        apex.clone(),
+        cat(&[b"a"], &apex),
+        cat(&[b"*"], &apex),
+        cat(&[b"b", b"a"], &apex),
+        cat(&[b"*", b"a"], &apex),
+        cat(&[b"a", b"*"], &apex),
+    ];
+    let mut universe: Vec<Add> = Vec::new();
+    for o in &owners {
+        universe.push(Add { owner: o.clone(), rtype: T_A, class, ttl: 60, rdata: vec![127, 0, 0, 1] });
+        universe.push(Add { owner: o.clone(), rtype: T_NS, class, ttl: 60, rdata: wire(&cat(&[b"b", b"a"], &apex)) });
+        universe.push(Add { owner: o.clone(), rtype: T_NS, class, ttl: 60, rdata: wire(&vec![b"q".to_vec()]) });
+        universe.push(Add { owner: o.clone(), rtype: T_CNAME, class, ttl: 60, rdata: wire(&cat(&[b"a"], &apex)) });
+    }
+    let labs: [&[u8]; 4] = [b"a", b"b", b"*", b"x"];
+    let mut names: Vec<Labels> = vec![apex.clone()];
+    let mut frontier: Vec<Labels> = vec![apex.clone()];
+    for _ in 0..2 {
+        let mut next = Vec::new();
+        for n in &frontier {
+            for l in labs {
+                next.push(cat(&[l], n));
+            }
+        }
+        names.extend(next.iter().cloned());
+        frontier = next;
+    }
+    for o in &owners {
+        if o.len() == 3 {
+            for l in labs {
+                names.push(cat(&[l], o));
+            }
+        }
+    }
+    let mut steps: Vec<String> = Vec::new();
+    for n in &names {
+        query_steps(n, &[T_A, T_NS], &["00", "01"], &mut steps);
+    }
+    for s in ["n", "r", "s", "t", "v"] {
+        steps.push(s.to_string());
+    }
+    let u = universe.len();
+    let mut idx: Vec<usize> = Vec::new();
+    fn rec(universe: &[Add], idx: &mut Vec<usize>, start: usize, k: usize, apex: &Labels, class: u16, glue: char, steps: &[String], em: &mut Emitter) {
+        if !idx.is_empty() {
+            let sess = Session { apex: apex.clone(), class, glue, adds: idx.iter().map(|i| universe[*i].step()).collect() };
+            sess.emit(em, steps, 128);
+        }
+        if idx.len() == k {
+            return;
+        }
+        for i in start..universe.len() {
+            idx.push(i);
+            rec(universe, idx, i + 1, k, apex, class, glue, steps, em);
+            idx.pop();
+        }
+    }
+    let _ = u;
+    rec(&universe, &mut idx, 0, k, &apex, class, glue, &steps, em);
+}
+
+pub fn gen(rng: &mut Rng, thorough: bool, em: &mut Emitter) {
+    // the empty zone
+    let empty = Session { apex: vec![b"z".to_vec()], class: 1, glue: 'n', adds: vec![] };
+    let mut steps = Vec::new();
+    query_steps(&vec![b"z".to_vec()], &[T_A, T_NS], &["00", "01", "10", "11"], &mut steps);
+    query_steps(&vec![b"a".to_vec(), b"z".to_vec()], &[T_A], &["00", "01", "10", "11"], &mut steps);
+    query_steps(&vec![], &[T_A], &["00", "01"], &mut steps);
+    steps.extend(["n", "r", "s", "t", "v"].iter().map(|s| s.to_string()));
+    empty.emit(em, &steps, 64);
+    // exhaustive small zones
+    if thorough {
+        exhaustive(em, 4, 'n', 1);
+        exhaustive(em, 2, 'w', 1);
+        exhaustive(em, 2, 'n', 3);
+    } else {
+        exhaustive(em, 2, 'n', 1);
+    }
+    // random zones
+    let n = if thorough { 1500 } else { 250 };
+    for _ in 0..n {
+        random_zone(rng, em, thorough);
+    }
+}
